@@ -229,17 +229,20 @@ Lemma plan_exists : forall cis o ps hist entries pls p par j r cl,
   all_plans cis o ps hist entries = Ok pls ->
   nth_error ps p = Some par -> p_visible par = true ->
   nth_error (p_refs par) j = Some r -> filtered_out (o_filter o) r = false ->
-  hist (r_id r) = HFound cl ->
+  hist (r_id r) = HFound cl -> cl <> [] ->
   exists pl, In pl pls /\ pl_pidx pl = p /\ In (p, j) (pl_locs pl) /\
              pl_child pl = find_visible cis cl (p_changeset par) (time_threshold_parent cis par 0) (o_threshold o).
 Proof.
-  intros cis o ps hist entries pls p par j r cl Hv Hall Hp Hvis Hj Hf Hh.
+  intros cis o ps hist entries pls p par j r cl Hv Hall Hp Hvis Hj Hf Hh Hne.
   destruct (map_child_locs_complete ps (o_filter o) p par j r Hp Hj Hf) as [locs [Hent Hloc]].
   assert (In (r_id r, locs) entries) as Hent'
     by (eapply Permutation_in; [apply Permutation_sym; exact Hv|exact Hent]).
   unfold all_plans in Hall. destruct (collect_ok _ _ _ _ _ Hall) as [Hpls Hok]. subst pls.
   destruct (Hok _ Hent') as [x Hx].
   pose proof Hx as Hx0. unfold child_plans in Hx. cbn [fst snd] in Hx. rewrite Hh in Hx.
+  assert (collect (group_plans cis o ps (r_id r) cl) (group_by_parent locs) = Ok x) as Hx'
+    by (destruct cl; [congruence|exact Hx]).
+  clear Hx. rename Hx' into Hx.
   destruct (collect_ok _ _ _ _ _ Hx) as [Hxs Hgok].
   destruct (group_by_parent_cover locs (p, j) Hloc) as [g [Hg Hpg]].
   destruct (group_by_parent_ok _ _ Hg) as [y [rest [Ey Hyall]]].
@@ -269,7 +272,7 @@ Lemma annotate_child_selected : forall cis o ps hist entries sortf ps' results p
   compute_with cis o ps hist entries sortf = Ok (ps', results) ->
   nth_error ps p = Some par -> p_visible par = true ->
   nth_error (p_refs par) j = Some r -> filtered_out (o_filter o) r = false ->
-  hist (r_id r) = HFound cl ->
+  hist (r_id r) = HFound cl -> cl <> [] ->
   exists par' r',
     nth_error ps' p = Some par' /\ nth_error (p_refs par') j = Some r' /\
     r' = match find_visible cis cl (p_changeset par) (pstamp cis par) (o_threshold o) with
@@ -277,14 +280,14 @@ Lemma annotate_child_selected : forall cis o ps hist entries sortf ps' results p
          | None => r
          end.
 Proof.
-  intros cis o ps hist entries sortf ps' results p par j r cl Hv Hc Hp Hvis Hj Hf Hh.
+  intros cis o ps hist entries sortf ps' results p par j r cl Hv Hc Hp Hvis Hj Hf Hh Hne.
   rewrite compute_with_plans in Hc.
   destruct (all_plans cis o ps hist entries) as [pls|] eqn:E; [|discriminate].
   cbv zeta in Hc. inversion Hc; subst ps' results. clear Hc.
   rewrite run_plans_fst. cbn [fst].
   destruct (writes_ref (flat_map plan_writes pls) ps p par j r Hp Hj) as [par' [r' [H1 [H2 H3]]]].
   exists par', r'. split; [exact H1|]. split; [exact H2|].
-  destruct (plan_exists cis o ps hist entries pls p par j r cl Hv E Hp Hvis Hj Hf Hh)
+  destruct (plan_exists cis o ps hist entries pls p par j r cl Hv E Hp Hvis Hj Hf Hh Hne)
     as [pl [Hpl [Epl [Hloc Hchild]]]].
   assert (In (p, j, pl_child pl) (flat_map plan_writes pls)) as Hw.
   { apply in_flat_map. exists pl. split; [exact Hpl|]. unfold plan_writes.
@@ -303,7 +306,7 @@ Lemma annotate_child_current : forall cis o ps hist entries sortf ps' results p 
   compute_with cis o ps hist entries sortf = Ok (ps', results) ->
   nth_error ps p = Some par -> p_visible par = true ->
   nth_error (p_refs par) j = Some r -> filtered_out (o_filter o) r = false ->
-  hist (r_id r) = HFound cl ->
+  hist (r_id r) = HFound cl -> cl <> [] ->
   forallb (commit_child cis) cl = true -> stamps_monotone cis cl = true ->
   exists par' r',
     nth_error ps' p = Some par' /\ nth_error (p_refs par') j = Some r' /\
@@ -312,9 +315,9 @@ Lemma annotate_child_current : forall cis o ps hist entries sortf ps' results p 
          | None => r
          end.
 Proof.
-  intros cis o ps hist entries sortf ps' results p par j r cl Hv Hc Hp Hvis Hj Hf Hh Hcc Hm.
+  intros cis o ps hist entries sortf ps' results p par j r cl Hv Hc Hp Hvis Hj Hf Hh Hne Hcc Hm.
   destruct (annotate_child_selected cis o ps hist entries sortf ps' results p par j r cl
-              Hv Hc Hp Hvis Hj Hf Hh) as [par' [r' [H1 [H2 H3]]]].
+              Hv Hc Hp Hvis Hj Hf Hh Hne) as [par' [r' [H1 [H2 H3]]]].
   exists par', r'. split; [exact H1|]. split; [exact H2|].
   rewrite (find_visible_commit cis (p_changeset par) (pstamp cis par) (o_threshold o) cl Hcc Hm) in H3.
   exact H3.
@@ -352,8 +355,10 @@ Proof.
   apply in_flat_map in Hpl. destruct Hpl as [[fid locs] [Hent Hpl]].
   destruct (Hall _ Hent) as [x Hx]. unfold ok_or_nil in Hpl. rewrite Hx in Hpl.
   unfold child_plans in Hx. cbn [fst snd] in Hx.
-  destruct (hist fid) as [cl| |]; [| |discriminate].
-  - destruct (collect_ok _ _ _ _ _ Hx) as [Hxs Hgall]. subst x.
+  destruct (hist fid) as [[|c0 cl0]| |]; [| | |discriminate].
+  - destruct (o_ignore_missing o); [|discriminate]. inversion Hx; subst. destruct Hpl.
+  - set (cl := c0 :: cl0) in *.
+    destruct (collect_ok _ _ _ _ _ Hx) as [Hxs Hgall]. subst x.
     apply in_flat_map in Hpl. destruct Hpl as [g [Hg Hpl]].
     destruct (Hgall g Hg) as [y Hy]. unfold ok_or_nil in Hpl. rewrite Hy in Hpl.
     eapply group_plans_facts; eassumption.
@@ -445,15 +450,18 @@ Qed.
 (* NoHistoryError is reported only for a child that is referenced, has no history, option off *)
 Lemma no_history_error_typed : forall cis o ps hist entries sortf fid,
   compute_with cis o ps hist entries sortf = Err (ENoHistory fid) ->
-  o_ignore_missing o = false /\ hist fid = HNotFound /\ exists locs, In (fid, locs) entries.
+  o_ignore_missing o = false /\ missing_hist (hist fid) = true /\ exists locs, In (fid, locs) entries.
 Proof.
   intros cis o ps hist entries sortf fid H. rewrite compute_with_plans in H.
   destruct (all_plans cis o ps hist entries) as [pls|e] eqn:E; [cbv zeta in H; discriminate|].
   inversion H; subst e. unfold all_plans in E.
   destruct (collect_err _ _ _ _ _ E) as [[f locs] [Hent Hf]].
   unfold child_plans in Hf. cbn [fst snd] in Hf.
-  destruct (hist f) as [cl| |] eqn:Eh.
-  - exfalso. destruct (collect_err _ _ _ _ _ Hf) as [g [Hg Hge]].
+  destruct (hist f) as [[|c0 cl0]| |] eqn:Eh.
+  - destruct (o_ignore_missing o); [discriminate|]. inversion Hf; subst f.
+    split; [reflexivity|]. split; [rewrite Eh; reflexivity|]. exists locs. exact Hent.
+  - set (cl := c0 :: cl0) in *.
+    exfalso. destruct (collect_err _ _ _ _ _ Hf) as [g [Hg Hge]].
     unfold group_plans in Hge. destruct g as [|l0 rest]; [discriminate|].
     destruct (nth_error ps (fst l0)) as [par|]; [|discriminate].
     destruct (negb (p_visible par)); [discriminate|].
@@ -461,7 +469,7 @@ Proof.
     inversion Hge; subst e'.
     destruct (group_plan_err _ _ _ _ _ _ _ _ Eg) as [Hx|[[Hx _]|[Hx _]]]; discriminate.
   - destruct (o_ignore_missing o); [discriminate|]. inversion Hf; subst f.
-    split; [reflexivity|]. split; [exact Eh|]. exists locs. exact Hent.
+    split; [reflexivity|]. split; [rewrite Eh; reflexivity|]. exists locs. exact Hent.
   - discriminate.
 Qed.
 
@@ -480,8 +488,10 @@ Proof.
   inversion H; subst e. unfold all_plans in E.
   destruct (collect_err _ _ _ _ _ E) as [[f locs] [Hent Hf]].
   unfold child_plans in Hf. cbn [fst snd] in Hf.
-  destruct (hist f) as [cl| |] eqn:Eh; [| |discriminate].
-  - destruct (collect_err _ _ _ _ _ Hf) as [g [Hg Hge]].
+  destruct (hist f) as [[|c0 cl0]| |] eqn:Eh; [| | |discriminate].
+  - destruct (o_ignore_missing o); discriminate.
+  - set (cl := c0 :: cl0) in *.
+    destruct (collect_err _ _ _ _ _ Hf) as [g [Hg Hge]].
     unfold group_plans in Hge. destruct g as [|l0 rest]; [discriminate|].
     destruct (nth_error ps (fst l0)) as [par|] eqn:Ep; [|discriminate].
     destruct (p_visible par) eqn:Ev; cbn [negb] in Hge; [|discriminate].
@@ -497,7 +507,7 @@ Qed.
 Lemma missing_history_error : forall cis o ps hist entries sortf p par j r,
   valid_order o ps entries ->
   nth_error ps p = Some par -> nth_error (p_refs par) j = Some r ->
-  filtered_out (o_filter o) r = false -> hist (r_id r) = HNotFound -> o_ignore_missing o = false ->
+  filtered_out (o_filter o) r = false -> missing_hist (hist (r_id r)) = true -> o_ignore_missing o = false ->
   exists e, compute_with cis o ps hist entries sortf = Err e.
 Proof.
   intros cis o ps hist entries sortf p par j r Hv Hp Hj Hf Hh Hi.
@@ -508,21 +518,21 @@ Proof.
     by (eapply Permutation_in; [apply Permutation_sym; exact Hv|exact Hent]).
   unfold all_plans in E. destruct (collect_ok _ _ _ _ _ E) as [_ Hok].
   destruct (Hok _ Hent') as [x Hx]. unfold child_plans in Hx. cbn [fst] in Hx.
-  rewrite Hh, Hi in Hx. discriminate.
+  destruct (hist (r_id r)) as [[|c0 cl0]| |]; try discriminate Hh; rewrite Hi in Hx; discriminate.
 Qed.
 
 Lemma no_visible_child_error : forall cis o ps hist entries sortf p par j r cl,
   valid_order o ps entries ->
   nth_error ps p = Some par -> p_visible par = true -> nth_error (p_refs par) j = Some r ->
-  filtered_out (o_filter o) r = false -> hist (r_id r) = HFound cl ->
+  filtered_out (o_filter o) r = false -> hist (r_id r) = HFound cl -> cl <> [] ->
   find_visible cis cl (p_changeset par) (pstamp cis par) (o_threshold o) = None ->
   o_ignore_incons o = false ->
   exists e, compute_with cis o ps hist entries sortf = Err e.
 Proof.
-  intros cis o ps hist entries sortf p par j r cl Hv Hp Hvis Hj Hf Hh Hfv Hi.
+  intros cis o ps hist entries sortf p par j r cl Hv Hp Hvis Hj Hf Hh Hne Hfv Hi.
   rewrite compute_with_plans.
   destruct (all_plans cis o ps hist entries) as [pls|e] eqn:E; [|eauto]. exfalso.
-  destruct (plan_exists cis o ps hist entries pls p par j r cl Hv E Hp Hvis Hj Hf Hh)
+  destruct (plan_exists cis o ps hist entries pls p par j r cl Hv E Hp Hvis Hj Hf Hh Hne)
     as [pl [Hpl [_ [_ Hchild]]]].
   fold (pstamp cis par) in Hchild. rewrite Hfv in Hchild.
   destruct (all_plans_facts _ _ _ _ _ _ E pl Hpl) as [_ Hnone].
